@@ -22,6 +22,24 @@ def union(*alphs):
 
 
 UALL = union(U13, UCONF)
+# follow-up operations on objects a first operation created or moved (valid only as a second step)
+UFOLLOW = [
+    ["rename", "c", "a"], ["write", "c"], ["delete", "c"], ["rename", "e", "d"], ["delete", "e"],
+    ["rename", "d/a", "a"], ["write", "d/a"], ["rename", "b", "d/b"], ["create", "d/b"], ["rename", "c", "d/c"],
+]
+UEXT = union(UALL, UFOLLOW)
+
+
+def valid_histories(base_ops, alpha, maxlen):
+    """one-sided sequences (length 1..maxlen) in which every operation succeeds on the reference tree"""
+    from .models import base_tree, valid_seq
+    base = base_tree(base_ops)
+    out = []
+    for n in range(1, maxlen + 1):
+        for sq in seqs(alpha, n):
+            if valid_seq(base, sq):
+                out.append(sq)
+    return out
 
 
 def stamp(scripts):
